@@ -1221,9 +1221,18 @@ typename db<Key, Value>::iterator& db<Key, Value>::iterator::seek(
     auto* const inode{node.template ptr<inode_type*>()};  // some internal node.
     const auto key_prefix{inode->get_key_prefix().get_snapshot()};  // prefix
     const auto key_prefix_length{key_prefix.length()};  // length of that prefix
-    const auto shared_length = key_prefix.get_shared_length(
+    auto shared_length = key_prefix.get_shared_length(
         remaining_key.get_u64());  // #of prefix bytes matched.
-    if (shared_length < key_prefix_length) {
+    // The search key may end inside, or right after, the prefix of this
+    // node, e.g., a scan bound that is a proper prefix of the stored keys.
+    // The zero padding of get_u64() must not be counted as matched bytes,
+    // and such a search key orders before every key below this node.
+    const auto remaining_size = remaining_key.size();
+    if (UNODB_DETAIL_UNLIKELY(remaining_size < shared_length))
+      shared_length = static_cast<unsigned>(remaining_size);
+    const auto key_exhausted =
+        remaining_size <= key_prefix_length && shared_length == remaining_size;
+    if (shared_length < key_prefix_length || key_exhausted) {
       // We have visited an internal node whose prefix is longer than
       // the bytes in the key that we need to match.  To figure out
       // whether the search key would be located before or after the
@@ -1232,8 +1241,10 @@ typename db<Key, Value>::iterator& db<Key, Value>::iterator::seek(
       // in common, we know that the next byte will tell us the
       // relative ordering of the key vs the prefix. So now we compare
       // prefix and key and the first byte where they differ.
-      const auto cmp_ = static_cast<int>(remaining_key[shared_length]) -
-                        static_cast<int>(key_prefix[shared_length]);
+      const auto cmp_ =
+          key_exhausted ? -1
+                        : static_cast<int>(remaining_key[shared_length]) -
+                              static_cast<int>(key_prefix[shared_length]);
       UNODB_DETAIL_ASSERT(cmp_ != 0);
       if (fwd) {
         if (cmp_ < 0) {
